@@ -106,6 +106,15 @@ def impl(c):
                 return [t.rel(sd.sm_path), t.rel(sd.ssc_path), t.rel(sd.simfile_path)]
             entry = {"paths": guard(mk)}
             entry["open"] = guard(lambda: G.sf_obs(SimfileDirectory(dsp, filesystem=t.fs, ignore_duplicate=c["ignore"]).open(**kwargs(c))))
+            # one object asked twice: first leniently, then with the defaults - the second answer is that of a fresh object
+            def twice():
+                sd = SimfileDirectory(dsp, filesystem=t.fs, ignore_duplicate=c["ignore"])
+                try:
+                    sd.open(strict=False)
+                except Exception:
+                    pass
+                return G.sf_obs(sd.open())
+            res.setdefault("again", {})[n] = [guard(twice), guard(lambda: G.sf_obs(SimfileDirectory(dsp, filesystem=t.fs, ignore_duplicate=c["ignore"]).open()))]
             def od():
                 sf, p = simfile.opendir(dsp, filesystem=t.fs, **kwargs(c))
                 return [G.sf_obs(sf), t.rel(p)]
@@ -249,6 +258,9 @@ def oracle(c, o):
     """the property restated on the observed listings (independent of the Coq model)"""
     if "__harness_exc__" in o:
         return "harness/library raised %s (%s)" % (o["__harness_exc__"], o.get("msg"))
+    for n, (again, fresh) in o.get("again", {}).items():
+        if again != fresh:
+            return "SimfileDirectory(%r).open() after an earlier open(strict=False) on the same object gives %s..., a fresh object gives %s..." % (n, str(again)[:150], str(fresh)[:150])
     want_pack = []
     for x, isd in o["listings"][""]:
         if isd and any(y.lower().endswith((".sm", ".ssc")) for y, _ in o["listings"]["/" + x]):
